@@ -275,6 +275,9 @@ fn ranges(rep: &mut Report, r: &mut Rng, a: &Args, stubs_all: &[u64; 256], cs: u
 }
 
 const ARITH: u64 = 0x1 | 0x4 | 0x10 | 0x40 | 0x80 | 0x800;
+/// nested-task and alignment-check: both can be loaded by an iretq in user mode (the trampoline restores its caller's
+/// RFLAGS right after recording what the iretq loaded)
+const NT_AC: u64 = (1 << 14) | (1 << 18);
 
 fn own_flags() -> u64 {
     let v: u64;
@@ -284,8 +287,8 @@ fn own_flags() -> u64 {
 
 fn enter(rep: &mut Report, r: &mut Rng, stubs: &[u64; 256], v: usize, scratch: &Stack, resume: &Stack, cs: u16, ss: u16) {
     rep.eval();
-    let base = own_flags() & !(ARITH | 0x400 | (1 << 21)) | 0x2;
-    let flags = base | (r.next() & ARITH) | if r.chance(1, 6) { 0x400 } else { 0 } | if r.chance(1, 3) { 1 << 21 } else { 0 };
+    let base = own_flags() & !(ARITH | 0x400 | (1 << 21) | NT_AC) | 0x2;
+    let flags = base | (r.next() & ARITH) | if r.chance(1, 6) { 0x400 } else { 0 } | if r.chance(1, 3) { 1 << 21 } else { 0 } | if r.chance(1, 3) { r.next() & NT_AC } else { 0 };
     let err = match r.below(4) {
         0 => 0,
         1 => u64::MAX,
@@ -319,7 +322,7 @@ fn enter(rep: &mut Report, r: &mut Rng, stubs: &[u64; 256], v: usize, scratch: &
             rep.violation("stub|diverging|returned", ctx());
         }
     } else {
-        const KEEP: u64 = ARITH | 0x400 | (1 << 21);
+        const KEEP: u64 = ARITH | 0x400 | (1 << 21) | NT_AC;
         if p.out_path != 1 || p.out_rsp != frame_rsp {
             rep.violation(&format!("stub|{}|did-not-resume-at-interrupted-rip-rsp", kind), ctx());
         } else if p.out_flags & KEEP != flags & KEEP {
@@ -345,8 +348,8 @@ extern "C" fn do_iretq(p: *mut Params) -> ! {
 
 fn iretq_case(rep: &mut Report, r: &mut Rng, scratch: &Stack, resume: &Stack, cs: u16, ss: u16) {
     rep.eval();
-    let base = own_flags() & !(ARITH | 0x400 | (1 << 21)) | 0x2;
-    let flags = base | (r.next() & ARITH) | if r.chance(1, 6) { 0x400 } else { 0 } | if r.chance(1, 3) { 1 << 21 } else { 0 };
+    let base = own_flags() & !(ARITH | 0x400 | (1 << 21) | NT_AC) | 0x2;
+    let flags = base | (r.next() & ARITH) | if r.chance(1, 6) { 0x400 } else { 0 } | if r.chance(1, 3) { 1 << 21 } else { 0 } | if r.chance(1, 3) { r.next() & NT_AC } else { 0 };
     let frame_rsp = resume.lo() + 4096 + r.below(0x6000);
     let wrapper = r.chance(1, 2);
     // frame values are plain data: the wrapper's constructor and its volatile mutable view store / show exactly the fields
@@ -366,11 +369,11 @@ fn iretq_case(rep: &mut Report, r: &mut Rng, scratch: &Stack, resume: &Stack, cs
     }
     let mut p = Params { handler: do_iretq as usize as u64, err: wrapper as u64, flags, frame_rsp, scratch_top: scratch.top(), cs: cs as u64, ss: ss as u64, mode: 1, ..Default::default() };
     unsafe { irqsim::deliver(&mut p as *mut Params) };
-    const KEEP: u64 = ARITH | 0x400 | (1 << 21);
+    const KEEP: u64 = ARITH | 0x400 | (1 << 21) | NT_AC;
     if p.out_path != 1 || p.out_rsp != frame_rsp || p.out_flags & KEEP != flags & KEEP {
         rep.violation("InterruptStackFrameValue::iretq|landed-with-other-rsp-or-flags", J::obj(vec![("profile", J::s(profile_name())), ("frame_rsp", J::hex(frame_rsp)), ("frame_flags", J::hex(flags)), ("rsp", J::hex(p.out_rsp)), ("rflags", J::hex(p.out_flags)), ("path", J::U(p.out_path))]));
     }
-    rep.class(&format!("iretq|{}|df={}|id={}", if wrapper { "InterruptStackFrame" } else { "InterruptStackFrameValue" }, (flags >> 10) & 1, (flags >> 21) & 1));
+    rep.class(&format!("iretq|{}|df={}|id={}|nt={}|ac={}", if wrapper { "InterruptStackFrame" } else { "InterruptStackFrameValue" }, (flags >> 10) & 1, (flags >> 21) & 1, (flags >> 14) & 1, (flags >> 18) & 1));
 }
 
 pub fn run(a: &Args, rep: &mut Report) {
